@@ -26,6 +26,7 @@ INVARIANT Inv_Exclusive
 INVARIANT Inv_Held
 PROPERTY Prop_Replay
 PROPERTY Prop_SelectAvoidsReserved
+PROPERTY Prop_FinalizeOwn
 PROPERTY EmitEdges
 CONSTRAINT Bound
 VIEW View
